@@ -124,7 +124,7 @@ class S2SFamily:
         s = System()
         b1 = RigidBody(1.0, np.eye(3), q0=self.q0[:7].copy(), name="b1")
         b2 = RigidBody(1.0, np.eye(3), q0=self.q0[7:].copy(), name="b2")
-        c = Sphere2Sphere(b1, b2, 0.2, 0.3, mu=0.4, e_N=0.0, e_F=0.0)
+        c = Sphere2Sphere(b1, b2, 0.2, 0.3, mu=getattr(self, "mu", 0.4), e_N=0.0, e_F=0.0)
         if nocache:
             _nocache(c, self.tables.values())
             for b in (b1, b2):
@@ -152,6 +152,8 @@ class S2SFamily:
 
     def extra(self, o, rng):
         t, q, u = self.t[0], self.q[rng.randrange(len(self.q))], self.u[0]
+        if getattr(self, "mu", 0.4) == 0.0:      # a frictionless contact has no friction routines; its tangents can still be asked for
+            return [o.g_N_dot(t, q, u), o.g_N_q(t, q), o.W_N(t, q)]
         return [o.gamma_F(t, q, u), o.W_F(t, q), o.g_N_dot(t, q, u), o.gamma_F_q(t, q, u), o.g_N_q(t, q)]
 
     def mutate(self, objs, last):
@@ -163,6 +165,12 @@ class S2SFamily:
                 o.assembler_callback()
         A, B = objs
         return _same(A.reference_contact_basis, B.reference_contact_basis)
+
+
+class S2SFrictionlessFamily(S2SFamily):
+    """the boundary value mu = 0: the memo tables of the normal and of the tangents exist all the same"""
+    name = "s2s"
+    mu = 0.0
 
 
 class S2SFrameFamily(S2SFamily):
@@ -219,9 +227,15 @@ class MeshFamily:
         A._eval_basis_cache.clear()
         _nocache(B, self.tables.values())
         self.size = A._eval_basis_cache.maxsize
+        # a third live mesh of the same degree and element count on ANOTHER partition: it is asked for the same (xi, el) right before every call
+        self.sibling = Mesh1D(LagrangeKnotVector(2, 2, data=np.array([0.0, 0.3, 1.0])), 3, dim_q=3, derivative_order=1, basis="Lagrange", quadrature="Gauss")
         return A, B
 
     def call(self, o, f, a):
+        try:
+            self.sibling.eval_basis(self.xi[a["xi"]], self.el[a["el"]])
+        except Exception:
+            pass
         return o.eval_basis(self.xi[a["xi"]], self.el[a["el"]])
 
     def key(self, f, k):
@@ -308,7 +322,7 @@ def _fresh(self):
 for _F in (RigidFamily, S2SFamily, S2SFrameFamily, MeshFamily, RodFamily):
     _F.fresh = _fresh
 
-FAMILIES = {"rigid": RigidFamily, "s2s": S2SFamily, "s2sf": S2SFrameFamily, "mesh": MeshFamily, "rod": RodFamily}
+FAMILIES = {"rigid": RigidFamily, "s2s": S2SFamily, "s2s0": S2SFrictionlessFamily, "s2sf": S2SFrameFamily, "mesh": MeshFamily, "rod": RodFamily}
 
 
 def _abstract_args(a):
@@ -407,14 +421,15 @@ def run(ctx):
     counters = {"calls": 0, "mutations": 0, "behaviours": 0, "lru_order_diff": 0, "cache_content_diff": 0}
     samples = []
     plan = {  # family -> (pool, ops for the replayed graph, ops for the design check)
-        "rigid": (2, 2, 4), "rigid#scaled": (2, 2, 4), "s2s": (2, 3, 5), "s2sf": (2, 3, 4), "mesh": (3, 3, 5), "rod": (2, 3, 5),
+        "rigid": (2, 2, 4), "rigid#scaled": (2, 2, 4), "s2s": (2, 3, 5), "s2s0": (2, 3, 4), "s2sf": (2, 3, 4), "mesh": (3, 3, 5), "rod": (2, 3, 5),
     }
     if ctx.thorough:
         # (a pool of three rigid-body states makes the replayed graph explode to millions of walks: deeper histories over two states instead)
-        plan = {"rigid": (2, 3, 5), "rigid#scaled": (2, 3, 5), "s2s": (2, 4, 6), "s2sf": (2, 4, 5), "mesh": (3, 4, 6), "rod": (2, 4, 6)}
+        plan = {"rigid": (2, 3, 5), "rigid#scaled": (2, 3, 5), "s2s": (2, 4, 6), "s2s0": (2, 4, 5), "s2sf": (2, 4, 5), "mesh": (3, 4, 6), "rod": (2, 4, 6)}
     for famkey, (pool, gops, dops) in plan.items():
         famname, _, variant = famkey.partition("#")
         fam = FAMILIES[famname](rng, pool, variant) if variant else FAMILIES[famname](rng, pool)
+        famname = getattr(fam, "name", famname)       # the family of Memo.tla this object family is an instance of (s2s0 -> s2s)
         with warnings.catch_warnings():
             warnings.simplefilter("ignore")
             fam.make()    # learn the real cache sizes
